@@ -48,8 +48,15 @@ def gen_value(rng, kind):
     if kind == "pyint":
         return int(rng.integers(-10 ** 6, 10 ** 6)) if rng.random() < 0.8 else \
             int(rng.integers(2 ** 53, 2 ** 62))
+    if kind == "pyfloat-finite":     # for values that enter sums (inf - inf would be NaN)
+        while True:
+            v = gen_value(rng, "pyfloat")
+            if math.isfinite(v):
+                return v
     if kind == "pyfloat":
         c = rng.random()
+        if c < 0.04:
+            return float("inf") if rng.random() < 0.7 else float("-inf")   # e.g. SNR = inf
         if c < 0.3:
             return float(rng.integers(-50, 50))              # integral float
         if c < 0.6:
@@ -68,6 +75,8 @@ def gen_value(rng, kind):
                  else int(rng.choice([lo, hi])))
     if kind == "npfloat":
         t = FLOAT_TYPES[int(rng.integers(0, len(FLOAT_TYPES)))]
+        if rng.random() < 0.04:
+            return t(np.inf)
         return t(rng.uniform(-100, 100)) if rng.random() < 0.7 else t(rng.integers(-9, 9) + 0.5)
     if kind == "npbool":
         return np.bool_(rng.integers(0, 2))
@@ -93,6 +102,8 @@ def gen_value(rng, kind):
         else:
             t = FLOAT_TYPES[int(rng.integers(1, len(FLOAT_TYPES)))]
             a = (rng.standard_normal(shape) * 10.0 ** rng.uniform(-3, 3)).astype(t)
+            if a.size and rng.random() < 0.08:
+                a.flat[int(rng.integers(0, a.size))] = np.inf
         if nd >= 2 and rng.random() < 0.4:
             a = a.T if rng.random() < 0.5 else a[:, ::2]           # non-contiguous
         return a
@@ -125,7 +136,7 @@ def canon(v, strict=False):
         out = ("n", int(v))
     elif isinstance(v, (float, np.floating)):
         f = float(v)
-        out = ("n", int(f) if f == int(f) and abs(f) < 2 ** 53 else f)
+        out = ("n", int(f) if math.isfinite(f) and f == int(f) and abs(f) < 2 ** 53 else f)
     elif isinstance(v, str):
         out = ("s", v)
     elif isinstance(v, (list, tuple)):
@@ -255,6 +266,11 @@ def case_params(ctx, rng, idx):
     if tag["unpacked"]:
         kids = p.get_unpacked_params_list()
         kid = kids[int(rng.integers(0, len(kids)))]
+        if rng.random() < 0.5:
+            # the child gets an unpack mark of its own (a second-level sweep)
+            kid.add("inner_sweep", [1, 2, 3])
+            kid.set_unpack_parameter("inner_sweep")
+            tag = {**tag, "child_has_own_unpack_mark": True}
         for route, fnc in (("json", via_json), ("pickle", via_pickle)):
             y = roundtrip(ctx, "params-roundtrip", kid, fnc, canon_params, "child-" + route,
                           {**tag, "child_index": kid.unpack_index}, strict=(route == "pickle"))
@@ -286,12 +302,12 @@ def more_ops(rng, r, t, acc, nupd, merges=True):
         if t == Result.CHOICETYPE:
             r.update(int(rng.integers(0, 4)))
         elif t == Result.RATIOTYPE:
-            r.update(gen_value(rng, "pyfloat") if rng.random() < 0.5 else int(rng.integers(0, 9)),
+            r.update(gen_value(rng, "pyfloat-finite") if rng.random() < 0.5 else int(rng.integers(0, 9)),
                      int(rng.integers(1, 50)))
         elif t == Result.MISCTYPE:
-            r.update(gen_value(rng, str(rng.choice(["pyint", "pyfloat", "str"]))))
+            r.update(gen_value(rng, str(rng.choice(["pyint", "pyfloat-finite", "str"]))))
         else:
-            r.update(gen_value(rng, "pyfloat") if rng.random() < 0.5 else int(rng.integers(-9, 9)))
+            r.update(gen_value(rng, "pyfloat-finite") if rng.random() < 0.5 else int(rng.integers(-9, 9)))
 
 
 TYPES = [Result.SUMTYPE, Result.RATIOTYPE, Result.MISCTYPE, Result.CHOICETYPE]
